@@ -81,10 +81,32 @@ def spelled(case, spelling, container):
                 kw.update(wrong_audio)
     if spelling.startswith("validator"):
         good = AudioEnergyValidator(case["thr"], case["width"], case["channels"], use_channel=case["uc"])
+        if (case["pcm_seed"] >> 5) % 3 == 0:
+            # the caller's validator is an object whose truth value happens to be False (a memoising mapping, empty at the start;
+            # a history that is still empty): it is the validator all the same, under either name
+            inner_ = good
+
+            class _Memo(dict):
+                def is_valid(self, frame):
+                    return bool(inner_.is_valid(frame))
+
+                def __call__(self, frame):
+                    return self.is_valid(frame)
+
+            from auditok.util import DataValidator
+
+            class _History(DataValidator):
+                def __len__(self):
+                    return 0
+
+                def is_valid(self, frame):
+                    return bool(inner_.is_valid(frame))
+
+            good = _History() if (case["pcm_seed"] >> 7) & 1 else _Memo()
         for k in ("energy_threshold", "eth", "use_channel", "uc"):
             kw.pop(k, None)
         if spelling == "validator_long":
-            kw["validator"] = good if case["pcm_seed"] & 8 else good.is_valid
+            kw["validator"] = good if case["pcm_seed"] & 8 or not isinstance(good, AudioEnergyValidator) else good.is_valid
         else:
             if case["pcm_seed"] & 1:
                 kw["val"] = lambda frame: True  # wrong on purpose, and written first
